@@ -151,6 +151,14 @@ class World(object):
         return True
 
     def close(self):
+        # abortive close (RST) on both sides so that thousands of cases do not pile up TIME_WAIT entries
+        linger = struct.pack("ii", 1, 0)
+        for sock in [self.sub.cl.cs] + [ix.cs for ix in self.srv.ixes.values()]:
+            try:
+                if sock is not None:
+                    sock.setsockopt(socket.SOL_SOCKET, socket.SO_LINGER, linger)
+            except Exception:   # noqa
+                pass
         self.sub.close()
         try:
             self.down()
@@ -187,7 +195,11 @@ def loopback_case(ctx, rng, idx):
     sched = gen_schedule(rng, T)
     params = {"kind": kind, "timeout": T, "reconnectable": rc, "server_initially_up": up0, "opened_first": opened,
               "schedule": [list(e) for e in sched]}
-    W = World(kind, T, rc, up0, opened)
+    try:
+        W = World(kind, T, rc, up0, opened)
+    except Inconclusive:
+        ctx.hit("discarded_no_listen_port")       # ephemeral ports exhausted for a moment (TIME_WAIT); not a verdict
+        return
     loop = Loop(W.clk, wall_limit=30.0, pace=0.0002)
     sub = W.sub
     cl = sub.cl
@@ -443,15 +455,15 @@ def worker(ctx, job):
 
 def run(ctx):
     K = ctx.pick(12, 16)
-    jobs = [{"what": "loopback", "k": k, "N": ctx.pick(40, 2000)} for k in range(K)]
+    jobs = [{"what": "loopback", "k": k, "N": ctx.pick(40, 700)} for k in range(K)]
     jobs.append({"what": "doubles", "L": ctx.pick(4, 5)})
     ctx.shard(jobs, timeout=ctx.pick(120, 900))
     ctx.extra["bound_in_service_rounds"] = BOUND
     for kind in ("Client", "Patron", "TcpClientStack"):
-        ctx.floor("reconnect_after_loss_%s" % kind, ctx.pick(40, 2000))
+        ctx.floor("reconnect_after_loss_%s" % kind, ctx.pick(40, 700))
         ctx.floor("double_loss_%s" % kind, ctx.pick(80, 400))
-    ctx.floor("nonreconnectable_rounds_after_cutoff", ctx.pick(300, 6000))
-    ctx.floor("drops_fin", ctx.pick(60, 3500))
-    ctx.floor("drops_rst", ctx.pick(35, 2300))
+    ctx.floor("nonreconnectable_rounds_after_cutoff", ctx.pick(300, 2500))
+    ctx.floor("drops_fin", ctx.pick(60, 1300))
+    ctx.floor("drops_rst", ctx.pick(35, 800))
     ctx.floor("double_cases", ctx.pick(1500, 9000))
-    ctx.floor("distinct_nontrivial", ctx.pick(1500, 40000))
+    ctx.floor("distinct_nontrivial", ctx.pick(1500, 15000))
